@@ -324,12 +324,30 @@ func ruleC17EntryPerSuccess(c *Ctx) {
 			if w == nil {
 				return
 			}
-			hasEncrypt := false
+			// the worker body: the closure itself plus the package functions it calls (the body may live in a named helper)
+			bodies := []*ssa.Function{w}
 			allInstrs(w, func(j ssa.Instruction) {
-				if cc := callOf(j); cc != nil && (strings.HasPrefix(strings.ToLower(methodNameOf(cc)), "encrypt")) {
-					hasEncrypt = true
+				if h := staticCallee(j); h != nil && h.Blocks != nil && h.Pkg != nil && h.Pkg.Pkg.Path() == pkg && h != w {
+					bodies = append(bodies, h)
 				}
 			})
+			encName := func(cc *ssa.CallCommon) string {
+				if n := methodNameOf(cc); n != "" {
+					return strings.ToLower(n)
+				}
+				if g := cc.StaticCallee(); g != nil {
+					return strings.ToLower(g.Name())
+				}
+				return ""
+			}
+			hasEncrypt := false
+			for _, bf := range bodies {
+				allInstrs(bf, func(j ssa.Instruction) {
+					if cc := callOf(j); cc != nil && strings.HasPrefix(encName(cc), "encrypt") {
+						hasEncrypt = true
+					}
+				})
+			}
 			if !hasEncrypt {
 				return
 			}
@@ -351,29 +369,34 @@ func ruleC17EntryPerSuccess(c *Ctx) {
 			}
 			// success → send on every path
 			sendOK := false
-			allInstrs(w, func(j ssa.Instruction) {
-				cc := callOf(j)
-				if cc == nil || !strings.HasPrefix(strings.ToLower(methodNameOf(cc)), "encrypt") {
-					return
-				}
-				if _, isCall := j.(*ssa.Call); !isCall {
-					return
-				}
-				e := errOfCall(j)
-				if e == nil {
-					return
-				}
-				for _, b := range w.Blocks {
-					for _, s := range b.Succs {
-						for _, fct := range edgeFacts(b, s) {
-							if x, isNil, ok := nilTest(fct); ok && isNil && strip(x) == e {
-								okp, _ := mustPass(s, 0, func(k ssa.Instruction) bool { _, isS := k.(*ssa.Send); return isS }, nil)
-								sendOK = okp
+			for _, bf := range bodies {
+				bf := bf
+				allInstrs(bf, func(j ssa.Instruction) {
+					cc := callOf(j)
+					if cc == nil || !strings.HasPrefix(encName(cc), "encrypt") {
+						return
+					}
+					if _, isCall := j.(*ssa.Call); !isCall {
+						return
+					}
+					e := errOfCall(j)
+					if e == nil {
+						return
+					}
+					for _, b := range bf.Blocks {
+						for _, s := range b.Succs {
+							for _, fct := range edgeFacts(b, s) {
+								if x, isNil, ok := nilTest(fct); ok && isNil && strip(x) == e {
+									okp, _ := mustPass(s, 0, func(k ssa.Instruction) bool { _, isS := k.(*ssa.Send); return isS }, nil)
+									if okp {
+										sendOK = true
+									}
+								}
 							}
 						}
 					}
-				}
-			})
+				})
+			}
 			c.check(added && done && sendOK, name+"/worker", u.ipos(i), "wg.Add before go, deferred Done, success → send", fmt.Sprintf("regional worker protocol broken (wg.Add before go: %v, deferred Done: %v, result sent on every success path: %v): entries are lost or the drain never finishes", added, done, sendOK))
 		})
 		if nw == 0 {
